@@ -17,6 +17,7 @@ import (
 	"github.com/spikeekips/mitum/util"
 	"github.com/spikeekips/mitum/util/fixedtree"
 	"github.com/spikeekips/mitum/util/hint"
+	"github.com/spikeekips/mitum/util/valuehash"
 	"pgregory.net/rapid"
 	"verif/internal/ev"
 	"verif/internal/gen"
@@ -76,6 +77,13 @@ func c16Inconsistent(it c16Items) (bad []string) {
 			return
 		}
 
+		// the served tree is what binds the items to the root: every node of it has to carry the hash of its key and children
+		if c16WrongNodeHash(it.OpsTree) >= 0 {
+			bad = append(bad, "operations")
+
+			return
+		}
+
 		var a, b []string
 
 		for _, k := range keys {
@@ -106,6 +114,12 @@ func c16Inconsistent(it c16Items) (bad []string) {
 
 		keys := bbTreeKeys(it.StsTree)
 		if m.StatesTree() == nil || !bytes.Equal(bbRefRoot(keys), m.StatesTree().Bytes()) {
+			bad = append(bad, "states")
+
+			return
+		}
+
+		if c16WrongNodeHash(it.StsTree) >= 0 {
 			bad = append(bad, "states")
 
 			return
@@ -167,6 +181,149 @@ func c16OnlyEmptyAgainstRoot(it c16Items, bad []string) bool {
 	}
 
 	return len(bad) > 0
+}
+
+// c16RefHashes: the reference Merkle hash of every node, computed from the node keys alone (node i has children 2i+1 and
+// 2i+2; hash = SHA3-256(key || hash(left) || hash(right))). Nothing stored in the tree but the keys is used.
+func c16RefHashes(keys []string) [][]byte {
+	n := len(keys)
+	hs := make([][]byte, n)
+
+	for i := n - 1; i >= 0; i-- {
+		b := []byte(keys[i])
+
+		if l := 2*i + 1; l < n {
+			b = append(b, hs[l]...)
+		}
+
+		if r := 2*i + 2; r < n {
+			b = append(b, hs[r]...)
+		}
+
+		hs[i] = valuehash.NewSHA256(b).Bytes()
+	}
+
+	return hs
+}
+
+// c16WrongNodeHash: index of the first node whose stored hash is not the reference hash of its key and children, -1 if
+// the tree is internally consistent.
+func c16WrongNodeHash(tr fixedtree.Tree) int {
+	hs := c16RefHashes(bbTreeKeys(tr))
+
+	for i := range hs {
+		if h := tr.Node(uint64(i)).Hash(); h == nil || !bytes.Equal(h.Bytes(), hs[i]) {
+			return i
+		}
+	}
+
+	return -1
+}
+
+// c16OnlyTreeNotHashingToRoot: every broken clause is of the shape "the served tree claims the manifest's root in its
+// root node, but its nodes do not hash to it" (a node key or a node hash inside the tree is not what the root commits to).
+func c16OnlyTreeNotHashingToRoot(it c16Items, bad []string) bool {
+	shape := func(tr fixedtree.Tree, root util.Hash) bool {
+		if tr.Len() < 1 || root == nil || tr.Root() == nil || !tr.Root().Equal(root) {
+			return false
+		}
+
+		return c16WrongNodeHash(tr) >= 0
+	}
+
+	for _, b := range bad {
+		switch {
+		case b == "operations" && shape(it.OpsTree, it.Manifest.OperationsTree()):
+		case b == "states" && shape(it.StsTree, it.Manifest.StatesTree()):
+		default:
+			return false
+		}
+	}
+
+	return len(bad) > 0
+}
+
+// c16StoredNodeHash: SHA3-256(key || stored hash of the left child || stored hash of the right child): the hash a node
+// gets when only this node is re-hashed and its children are taken as they are.
+func c16StoredNodeHash(nodes []fixedtree.Node, i int) util.Hash {
+	b := []byte(nodes[i].Key())
+
+	if l := 2*i + 1; l < len(nodes) {
+		b = append(b, nodes[l].Hash().Bytes()...)
+	}
+
+	if r := 2*i + 2; r < len(nodes) {
+		b = append(b, nodes[r].Hash().Bytes()...)
+	}
+
+	return valuehash.NewSHA256(b)
+}
+
+// c16TamperTreeNode returns a copy of tr in which node p is replaced by nn (nil: node p keeps its key) and the hashes are
+// set by mode: "kept" the node keeps the stored hash of the original node p; "foreign" the node gets the hash fh;
+// "node" only node p is re-hashed over its key and its children's stored hashes; "path" node p and all its ancestors are
+// re-hashed (a consistent tree); "foreign-path" node p gets fh and all its ancestors are re-hashed over it.
+func c16TamperTreeNode(tr fixedtree.Tree, p int, nn fixedtree.Node, mode string, fh util.Hash) (fixedtree.Tree, error) {
+	nodes := append([]fixedtree.Node(nil), tr.Nodes()...)
+	if p < 0 || p >= len(nodes) {
+		return fixedtree.Tree{}, fmt.Errorf("node %d out of %d", p, len(nodes))
+	}
+
+	orig := nodes[p]
+	if nn == nil {
+		nn = orig
+	}
+
+	up := false
+
+	switch mode {
+	case "kept":
+		nodes[p] = nn.SetHash(orig.Hash())
+	case "foreign", "foreign-path":
+		nodes[p] = nn.SetHash(fh)
+		up = mode == "foreign-path"
+	case "node", "path":
+		nodes[p] = nn
+		nodes[p] = nn.SetHash(c16StoredNodeHash(nodes, p))
+		up = mode == "path"
+	default:
+		return fixedtree.Tree{}, fmt.Errorf("unknown hash mode %q", mode)
+	}
+
+	for i := p; up && i > 0; {
+		i = (i - 1) / 2
+		nodes[i] = nodes[i].SetHash(c16StoredNodeHash(nodes, i))
+	}
+
+	return fixedtree.NewTree(tr.Hint(), nodes)
+}
+
+// c16NodePosition draws a node position of a tree of n nodes: where = "leaf" (no children), "inner" (has children; a
+// tree of one node has none, its only node is taken) or "any".
+func c16NodePosition(rt *rapid.T, n int, where string) (p int, desc, full string) {
+	firstLeaf := n / 2 // node i has children iff 2i+1 < n
+
+	switch {
+	case where == "leaf":
+		p = rapid.IntRange(firstLeaf, n-1).Draw(rt, "leafNode")
+	case where == "inner" && firstLeaf > 0:
+		p = rapid.IntRange(0, firstLeaf-1).Draw(rt, "innerNode")
+	default:
+		p = rapid.IntRange(0, n-1).Draw(rt, "node")
+	}
+
+	switch {
+	case p == 0 && n == 1:
+		desc = "root=only leaf"
+	case p == 0:
+		desc = "root"
+	case p >= firstLeaf:
+		desc = "leaf"
+	default:
+		desc = "inner"
+	}
+
+	return p, desc, fmt.Sprintf("node %d/%d (%s)", p, n, desc)
 }
 
 // c16ResignWithout replaces the block map under root by one with the same manifest and the same items and checksums except
@@ -364,6 +521,8 @@ var c16Kinds = []string{
 	"rewritten-untampered",
 	"foreign-states-tree", "extra-state", "missing-state", "altered-state", "states-and-tree-rebuilt",
 	"all-states-dropped", "states-dropped-tree-emptied",
+	"state-leaf-rekeyed", "state-inner-node-rekeyed", "state-node-rekeyed-rehashed", "states-tree-node-rekeyed", "states-tree-node-hash-changed",
+	"operation-leaf-rekeyed", "operation-inner-node-rekeyed", "operation-node-rekeyed-rehashed", "operations-tree-node-rekeyed", "operations-tree-node-hash-changed",
 	"operation-missing", "operation-foreign", "foreign-operations-tree", "operations-and-tree-of-other-block",
 	"all-operations-dropped", "operations-dropped-tree-emptied",
 	"proposal-other-block", "proposal-same-point-other-fact",
@@ -377,6 +536,7 @@ type c16Tamper struct {
 	Height  int
 	Other   int
 	Detail  string
+	Node    string // position class of the tampered tree node, if any
 	Swapped bool
 }
 
@@ -427,6 +587,133 @@ func c16Apply(rt *rapid.T, s *c15Src, tm *c16Tamper, it *c16Items) {
 		it.StsTree = fixedtree.EmptyTree()
 		it.EmptyStsTreeFile = true
 		it.Withheld = []base.BlockItemType{base.BlockItemStates}
+	case "state-leaf-rekeyed", "state-inner-node-rekeyed", "state-node-rekeyed-rehashed", "states-tree-node-rekeyed":
+		// the state that sits at one node of the states tree is replaced by a foreign state of this height, and that node is
+		// re-keyed to the foreign state's hash. *-leaf-/-inner-node-rekeyed keep the node's stored hash, so every other node,
+		// the root included, is untouched and the root still equals the manifest's; -rehashed re-hashes the node alone or the
+		// node and its ancestors; states-tree-node-rekeyed re-keys the node and leaves the states as they are
+		where, mode := "any", "kept"
+
+		switch tm.Kind {
+		case "state-leaf-rekeyed":
+			where = "leaf"
+		case "state-inner-node-rekeyed":
+			where = "inner"
+		case "state-node-rekeyed-rehashed":
+			mode = rapid.SampledFrom([]string{"node", "path"}).Draw(rt, "hashMode")
+		}
+
+		p, pos, pdesc := c16NodePosition(rt, it.StsTree.Len(), where)
+		tm.Node = pos
+		key := it.StsTree.Node(uint64(p)).Key()
+		i := -1
+
+		for j := range it.States {
+			if it.States[j].Hash().String() == key {
+				i = j
+			}
+		}
+
+		if i < 0 {
+			rt.Fatalf("harness: no state for node %d of the states tree of block %d", p, tm.Height)
+		}
+
+		st := it.States[i]
+		skey := st.Key()
+
+		if rapid.Bool().Draw(rt, "newStateKey") {
+			skey = "c16-foreign-" + label
+		}
+
+		foreign := base.NewBaseState(h, skey, base.NewDummyStateValue("foreign-"+label), st.Previous(), st.Operations())
+
+		if tm.Kind != "states-tree-node-rekeyed" {
+			it.States[i] = foreign
+		}
+
+		tr, err := c16TamperTreeNode(it.StsTree, p, fixedtree.NewBaseNode(foreign.Hash().String()), mode, nil)
+		must(err)
+
+		it.StsTree = tr
+		tm.Detail = fmt.Sprintf("%s re-keyed to state %q, hash %s", pdesc, skey, mode)
+	case "states-tree-node-hash-changed", "operations-tree-node-hash-changed":
+		// items and node keys as they are; the stored hash of one node is another hash, alone or with the ancestors re-hashed
+		// over it
+		trp := &it.StsTree
+		if tm.Kind == "operations-tree-node-hash-changed" {
+			trp = &it.OpsTree
+		}
+
+		mode := rapid.SampledFrom([]string{"foreign", "foreign-path"}).Draw(rt, "hashMode")
+		p, pos, pdesc := c16NodePosition(rt, trp.Len(), "any")
+		tm.Node = pos
+
+		tr, err := c16TamperTreeNode(*trp, p, nil, mode, gen.H(label+pdesc))
+		must(err)
+
+		*trp = tr
+		tm.Detail = fmt.Sprintf("%s hash %s", pdesc, mode)
+	case "operation-leaf-rekeyed", "operation-inner-node-rekeyed", "operation-node-rekeyed-rehashed", "operations-tree-node-rekeyed":
+		// same for the operations tree: the operation at one node is replaced by an operation of another block and the node
+		// is re-keyed to its fact hash (in-state flag and reason of the node kept)
+		where, mode := "any", "kept"
+
+		switch tm.Kind {
+		case "operation-leaf-rekeyed":
+			where = "leaf"
+		case "operation-inner-node-rekeyed":
+			where = "inner"
+		case "operation-node-rekeyed-rehashed":
+			mode = rapid.SampledFrom([]string{"node", "path"}).Draw(rt, "hashMode")
+		}
+
+		p, pos, pdesc := c16NodePosition(rt, it.OpsTree.Len(), where)
+		tm.Node = pos
+
+		on, ok := it.OpsTree.Node(uint64(p)).(base.OperationFixedtreeNode)
+		if !ok {
+			rt.Fatalf("harness: node %d of the operations tree of block %d is %T", p, tm.Height, it.OpsTree.Node(uint64(p)))
+		}
+
+		i := -1
+
+		for j := range it.Ops {
+			if it.Ops[j].Fact().Hash().Equal(on.Operation()) {
+				i = j
+			}
+		}
+
+		if i < 0 {
+			rt.Fatalf("harness: no operation for node %d of the operations tree of block %d", p, tm.Height)
+		}
+
+		foreign := other.Ops[pick(len(other.Ops), "otherOp")]
+
+		for j := range it.Ops {
+			if it.Ops[j].Fact().Hash().Equal(foreign.Fact().Hash()) {
+				rt.Fatalf("harness: operation %d of block %d is also in block %d", j, tm.Height, tm.Other)
+			}
+		}
+
+		if tm.Kind != "operations-tree-node-rekeyed" {
+			it.Ops[i] = foreign
+		}
+
+		var reason string
+		if on.Reason() != nil {
+			reason = on.Reason().Msg()
+		}
+
+		var nn fixedtree.Node = base.NewInStateOperationFixedtreeNode(foreign.Fact().Hash(), reason)
+		if !on.InState() {
+			nn = base.NewNotInStateOperationFixedtreeNode(foreign.Fact().Hash(), reason)
+		}
+
+		tr, err := c16TamperTreeNode(it.OpsTree, p, nn, mode, nil)
+		must(err)
+
+		it.OpsTree = tr
+		tm.Detail = fmt.Sprintf("%s re-keyed to an operation of block %d, hash %s", pdesc, tm.Other, mode)
 	case "all-operations-dropped":
 		tm.Detail = fmt.Sprintf("drop all %d", len(it.Ops))
 		it.Ops = nil
@@ -493,14 +780,17 @@ func TestC16(t *testing.T) {
 	r.Rule("blocks 0..42 of a production-path chain (genesis, candidate, join, filler states); per case one block is served from an attacker's directory written with the production LocalFSWriter " +
 		"(checksums recomputed, block map re-signed by the attacker or by the original signer) either untouched or with one tampering {states tree of another block, extra / missing / altered state, " +
 		"altered states with a consistently rebuilt tree, all states withheld with the genuine tree or with a tree file of zero nodes, missing / foreign operation, foreign operations tree, operations and tree of another block, " +
-		"all operations withheld with the genuine tree or with a tree file of zero nodes, proposal of another block or another proposal for the same point, voteproofs of another block, " +
+		"all operations withheld with the genuine tree or with a tree file of zero nodes, " +
+		"one node of the states / operations tree (leaf, inner node or root) re-keyed to a foreign state of this height / an operation of another block that replaces the item at that node, with the node's stored hash kept " +
+		"(all other nodes and the root untouched, root still the manifest's), the node alone re-hashed or the node and its ancestors re-hashed; the same re-keying with the items left as they are; " +
+		"the stored hash of one tree node replaced with or without re-hashing its ancestors; proposal of another block or another proposal for the same point, voteproofs of another block, " +
 		"ACCEPT voteproof at the same point whose majority is another block hash, manifest re-pointed to another states root / operations root / proposal, item file swapped after signing}; " +
 		"imported into a fresh node with the real BlockImporter (WriteMap, WriteItem per item, Save, merge). non-trivial: tampered and every item checksum matches the re-signed map; " +
 		"distinct by (height, other height, kind, parameters, signer)")
 	r.Floor(int64(r.N(120, 3000)))
 	r.Assume("stored := NewBlockImporter + WriteItem for every item of the map + Save + deferred merge all return nil (the per-block part of ImportBlocks)",
 		"oracle from the statement, independent of the validator: proposal fact hash and height equal the manifest's; operation fact hashes equal the keys of the served operations tree and its reference root equals the manifest's; "+
-			"same for states (hash keys, block height); both voteproofs at the manifest's height, same round, INIT/ACCEPT; ACCEPT result is a majority whose new-block hash is the manifest hash",
+			"same for states (hash keys, block height); every node of a served tree carries the reference hash of its key and its children's reference hashes (recomputed from the keys, not with Tree.IsValid); both voteproofs at the manifest's height, same round, INIT/ACCEPT; ACCEPT result is a majority whose new-block hash is the manifest hash",
 		"differential part: a stored block must pass isaacblock.IsValidBlockFromLocalFS on the destination's files",
 		"the validator is judged by the same clauses, independent of the importer: IsValidBlockFromLocalFS run on the served block files (and on the stored ones) must not accept files the clause-by-clause oracle calls inconsistent; "+
 			"a validator that rejects consistent served files is not judged",
@@ -658,8 +948,13 @@ func TestC16(t *testing.T) {
 
 			// root cause told apart by the shape of the served items, not by the tampering: every broken clause is "no
 			// items and a tree of zero nodes against a non-nil root in the manifest"
-			if c16OnlyEmptyAgainstRoot(it, bad) {
+			switch {
+			case c16OnlyEmptyAgainstRoot(it, bad):
 				sig = "validator-accepts-empty-tree-for-manifest-root"
+			case c16OnlyTreeNotHashingToRoot(it, bad):
+				// the tree carries the manifest's root in its root node, but a node key or node hash below is not what
+				// that root commits to
+				sig = "validator-accepts-tree-not-hashing-to-its-root"
 			}
 
 			switch {
@@ -687,6 +982,10 @@ func TestC16(t *testing.T) {
 
 		if tm.Height == 0 {
 			classes = append(classes, "block:genesis")
+		}
+
+		if tm.Node != "" {
+			classes = append(classes, "tree-node:"+tm.Node)
 		}
 
 		if len(bad) > 0 {
